@@ -178,7 +178,7 @@ def post(check, pairs, stats):
 CFG = {
     "id": "C09",
     "level": "proof",
-    "lean_modules": ["GeomV.C09.Proofs", "GeomV.C09.ProofsProj", "GeomV.C09.ProofsDatum", "GeomV.C09.ProofsPipeline", "GeomV.C09.ProofsInit", "GeomV.C09.ProofsInit2", "GeomV.C09.ProofsInit3"],
+    "lean_modules": ["GeomV.C09.Proofs", "GeomV.C09.ProofsProj", "GeomV.C09.ProofsDatum", "GeomV.C09.ProofsPipeline", "GeomV.C09.ProofsInit", "GeomV.C09.ProofsInit2", "GeomV.C09.ProofsInit3", "GeomV.C09.ProofsInit4"],
     "exe": "geomv_c09",
     "go_cmd": "c09",
     "stages": ["go:gen", "go:impl", "lean:judge"],
@@ -207,6 +207,8 @@ CFG = {
         "go_merc_init_val", "js_merc_init_val", "go_init_merc_eq_js", "go_merc_fwd_eq_js'", "go_merc_inv_eq_js'",
         "krovak_init_agree", "go_init_krovak_eq_js", "go_krovak_fwd_eq_js'", "go_krovak_inv_eq_js'",
         "aea_init_agree", "go_init_aea_eq_js", "go_aea_fwd_eq_js'", "go_aea_inv_eq_js'",
+        "lcc_init_agree", "go_init_lcc_eq_js", "go_lcc_fwd_eq_js'", "go_lcc_inv_eq_js'",
+        "eqdc_init_agree", "go_init_eqdc_eq_js", "go_eqdc_fwd_eq_js'", "go_eqdc_inv_eq_js'",
         # known finding: lcc at the pole, proved on the regenerated closure
         "lcc_pole_is_moved",
         # (B) Snyder's closed forms
